@@ -12,6 +12,31 @@ import sys
 import traceback
 
 os.environ.setdefault('JAX_PLATFORMS', 'cpu')
+os.environ.setdefault('TF_CPP_MIN_LOG_LEVEL', '3')
+
+
+def light_fedjax():
+  """Makes `fedjax.<sub>` importable without running fedjax/__init__.py (which
+  imports TensorFlow and every algorithm: ~20 s).  Sub-packages keep their own
+  __init__; only the top-level package body is skipped."""
+  import types
+  if 'fedjax' in sys.modules:
+    return
+  repo = None
+  for p in sys.path:
+    if p and os.path.isdir(os.path.join(p, 'fedjax')):
+      repo = p
+      break
+  if repo is None:
+    return
+  pkg = types.ModuleType('fedjax')
+  pkg.__path__ = [os.path.join(repo, 'fedjax')]
+  pkg.__file__ = os.path.join(repo, 'fedjax', '__init__.py')
+  sys.modules['fedjax'] = pkg
+
+
+import warnings  # noqa: E402
+warnings.filterwarnings('ignore')
 
 
 def main(checkers):
